@@ -67,7 +67,11 @@ TRUSTED = ["hand-written model Model/C11/{Combine,Roles,Wire,Signed}.lean tied b
            "txid modelled as injective (the model compares unsigned transactions, not hashes)",
            "validity of operands (assert_valid) and of signatures is not modelled: generators feed valid operands",
            "Python object aliasing is observed (serialisations before/after, id() of mutable parts), not modelled"]
-ASSUMPTIONS = ["operands of combine are valid psbts (assert_valid)", "dict keys are compared as byte strings"]
+ASSUMPTIONS = ["operands of combine are valid psbts (assert_valid)", "dict keys are compared as byte strings",
+               "hypotheses carried by counted theorems: Compatible (T1, combine_perm); Operand + tx_modifiable < 256 (combine_idem); "
+               "V0Shaped (wire_parse_serialize, toV0_toV2_id); no silent-payment output (second half of wire_preserves_tx); "
+               "key-sorted answer map (last clause of assertSignaturesOnly_sound); acceptance of the inner combine (combine_bracket)",
+               "txid modelled as injective"]
 
 _SPEC = None
 
